@@ -207,6 +207,24 @@ def charset_histories(ctx):
                     ctx.disagree("the harmless reading of the polyglot body was refused", case, st, "< 400")
             if "expanded" in json.dumps(dump_store(app)):
                 ctx.violation("the replacement text of an entity was stored", {"method": method, "charsets": list(order)})
+    # charset labels Python has no codec for (or none at all after "charset="), on a server whose users come from a header, not from
+    # Basic credentials (those are decoded with the same label and fail first): a hostile body stays a refused body
+    for method, label in itertools.product(methods, ["windows-874", "unicode-1-1-utf-8", "ISO-8859-8-I", "", "x-user-defined"]):
+        with App({"auth": {"type": "none"}, "rights": permissive_rights()}) as app:
+            scenarios.build_store(app, 0)
+            app.configure({"auth": {"type": "http_x_remote_user"}})
+            n += 1
+            path = {"MKCOL": "/u/lx%d/" % n, "MKCALENDAR": "/u/ly%d/" % n}.get(method, "/u/cal/")
+            body = ('<!DOCTYPE x [<!ENTITY e "expanded">]>' + request_body(method, "&e;", "")).encode("utf-8")
+            before = dump_store(app)
+            st, hd, text = app.request(method, path, body, CONTENT_TYPE="application/xml; charset=%s" % label, HTTP_X_REMOTE_USER="u", HTTP_DEPTH="1")
+            after = dump_store(app)
+            case = {"method": method, "charset_label": label, "status": st, "auth": "http_x_remote_user"}
+            ctx.case("unknown-charset:%s:%s" % (method, st), sample=case, key=["unknown-charset", method, label], nontrivial=True)
+            if st < 400:
+                ctx.violation("a body declaring an entity, sent with the charset label %r, was accepted (status %d)" % (label, st), case)
+            if after != before or "expanded" in text:
+                ctx.violation("a hostile body with the charset label %r changed the store or was expanded into the answer" % label, case)
 
 
 def run(ctx):
